@@ -25,7 +25,8 @@ deriving Repr, DecidableEq, Inhabited
 def writeAllGo (buf : Bytes) (done : Nat) (script : List WOut) (r : WARes) : WARes :=
   match script with
   | [] =>
-    if done < buf.length then { r with accepted := r.accepted ++ buf.drop done, calls := r.calls ++ [(done, buf.length - done)] } else r
+    if done < buf.length then { r with accepted := r.accepted ++ buf.drop done, calls := r.calls ++ [(done, buf.length - done)], rest := [] }
+    else { r with rest := [] }
   | o :: os =>
     if done ≥ buf.length then { r with rest := o :: os } else
     let size := buf.length - done
